@@ -12,7 +12,7 @@ while [ $# -ge 2 ]; do
   if [ -n "${BASE_REV:-}" ]; then mkdir -p $D/repo; git -C /repo archive $BASE_REV | tar -x -C $D/repo; else rsync -a --exclude .git /repo/ $D/repo/; fi
   if ! (cd $D/repo && git apply --unsafe-paths -p1 "$patch" 2>/dev/null || patch -s -p1 < "$patch"); then echo "ERROR  $prop $(basename $(dirname $patch)): patch does not apply"; bad=1; rm -rf $D; continue; fi
   out=$(VERIF_REPO=$D/repo VERIF_EVIDENCE_DIR=$D/ev VERIF_REPLAY_DIR=$D/replays ./bin/check $prop --budget $BUDGET 2>&1); code=$?
-  if [ $code = 0 ]; then echo "QUIET  $prop $(basename $(dirname $patch)) $(echo "$out" | grep -o 'runs=[0-9]*')"; else echo "ALARM($code) $prop $(basename $(dirname $patch)) $(echo "$out" | grep -m2 'INCONCLUSIVE\|^  O\|UNSUPPORTED' | tr '\n' ' ' | cut -c1-300)"; bad=1; mkdir -p /tmp/noalarm-keep; cp -r $D/replays /tmp/noalarm-keep/$(basename $(dirname $patch))-$prop 2>/dev/null; fi
+  if [ $code = 0 ]; then echo "QUIET  $prop $(basename $patch .patch) $(echo "$out" | grep -o 'runs=[0-9]*')"; else echo "ALARM($code) $prop $(basename $patch .patch) $(echo "$out" | grep -m2 'INCONCLUSIVE\|^  O\|UNSUPPORTED' | tr '\n' ' ' | cut -c1-300)"; bad=1; mkdir -p /tmp/noalarm-keep; cp -r $D/replays /tmp/noalarm-keep/$(basename $(dirname $patch))-$prop 2>/dev/null; fi
   rm -rf $D
 done
 exit $bad
